@@ -1041,6 +1041,14 @@ impl Transaction {
         // their input slips as their input slips are records of what to do
         // when reversing/unwinding the chain and have been spent previously.
         if self.transaction_type == TransactionType::Fee {
+            // the fee transaction the block's payout computation produces spends nothing. the hash it is
+            // compared with runs inputs and outputs together without saying how many there are of each: a
+            // fee transaction whose payouts have been moved to the input side has the same hash, and its
+            // inputs would be taken off the ledger with none of the checks below
+            if !self.from.is_empty() {
+                error!("ERROR: fee transaction has inputs");
+                return false;
+            }
             return true;
         }
 
